@@ -37,10 +37,11 @@ def find_classes(ctx: Ctx) -> Tuple[Class, Class, str, str, str]:
             if isinstance(n, (ast.Assign, ast.AnnAssign)):
                 t = n.targets[0] if isinstance(n, ast.Assign) else n.target
                 if isinstance(t, ast.Attribute) and isinstance(t.value, ast.Name) and t.value.id == "self" and n.value is not None:
-                    if isinstance(n.value, ast.Call):
-                        d = prog.dotted(init, n.value.func)
-                        if d in prog.classes and d not in prog.subclasses(STORE_IFACE) and d != STORE_IFACE:
-                            cache_attr, cache_cls = t.attr, prog.classes[d]
+                    built = [d for d in (prog.dotted(init, x.func) for x in ast.walk(n.value) if isinstance(x, ast.Call))
+                             if d in prog.classes and d not in prog.subclasses(STORE_IFACE) and d != STORE_IFACE]
+                    if built:
+                        # the cache object (possibly under a conditional expression)
+                        cache_attr, cache_cls = t.attr, prog.classes[built[0]]
                     elif isinstance(n.value, ast.Name) and n.value.id in init.params:
                         ann = unparse(n.annotation) if isinstance(n, ast.AnnAssign) else ""
                         if "Store" in ann or n.value.id == "store":
@@ -67,6 +68,45 @@ def _self_attr_call(n: ast.AST, attr: str) -> Optional[str]:
         if isinstance(r, ast.Attribute) and r.attr == attr and isinstance(r.value, ast.Name) and r.value.id == "self":
             return n.func.attr
     return None
+
+
+def cache_ownership(ctx: Ctx, rule: str) -> None:
+    """the wrapper's cache object is created by the wrapper's constructor and never shared with another store"""
+    rep = ctx.report
+    prog = ctx.prog
+    wrap, cache, cache_attr, store_attr, mapping = find_classes(ctx)
+    wi = wrap.methods.get("__init__")
+    # ownership: the wrapper's cache is always a fresh cache built by its own constructor, and is never handed out
+    if wi is not None:
+        stores = [(f, v, st) for (f, v, st) in ctx.heap.attr_stores.get(cache_attr, []) if f_cls(f) is wrap and isinstance(st, (ast.Assign, ast.AnnAssign, ast.AugAssign))
+                  and any(isinstance(t_, ast.Attribute) and t_.attr == cache_attr for t_ in (st.targets if isinstance(st, ast.Assign) else [st.target]))]
+        desc = f"self.{cache_attr} is only ever a fresh {cache.name} built by the constructor with the configured bound"
+        wit = []
+        for f, v, st in stores:
+            fresh = isinstance(v, ast.Call) and prog.dotted(f, v.func) == cache.qname
+            if f.name != "__init__" or not fresh:
+                wit.append(f"{f.loc(st)}: `{unparse(st, 80)}`: the cache can be an object built elsewhere (with another capacity, filled through another store)")
+        leaks = []
+        for m_ in wrap.methods.values():
+            for n in m_.own_nodes():
+                if isinstance(n, ast.Attribute) and n.attr == cache_attr and isinstance(n.value, ast.Name) and n.value.id == "self" and isinstance(n.ctx, ast.Load):
+                    par = m_.module.parent.get(n)
+                    if isinstance(par, ast.Return) or (isinstance(par, ast.Call) and n in par.args) or (isinstance(par, ast.keyword)) or (
+                            isinstance(par, (ast.Assign, ast.AnnAssign)) and par.value is n) or isinstance(par, (ast.IfExp, ast.Tuple, ast.List)):
+                        leaks.append(f"{m_.loc(n)}: `{unparse(m_.module.parent.get(n), 70)}` in {m_.name}: the cache object leaves the store that owns it")
+        for f in prog.funcs.values():
+            if f_cls(f) in (wrap, cache):
+                continue
+            for n in f.own_nodes():
+                if isinstance(n, ast.Attribute) and n.attr == cache_attr and ctx.types.receiver_class(f.module.name, n.value) == wrap.qname:
+                    leaks.append(f"{f.loc(n)}: `{unparse(n, 50)}` in {f.qname}: the cache of a store is reached from outside")
+        if wit or leaks:
+            rep.bad(rule, wrap.qname, desc, wi.loc(), wit + leaks, "cache-owner",
+                    what="a cache object is shared between / handed over to stores: the configured bound and the wrapped store's content no longer govern it")
+        elif stores:
+            rep.ok(rule, wrap.qname, desc + "; it never leaves the store", wi.loc(stores[0][2]))
+        else:
+            rep.unknown(rule, wrap.qname, f"no store to self.{cache_attr} found", wi.loc())
 
 
 def run(ctx: Ctx) -> None:
@@ -162,6 +202,7 @@ def run(ctx: Ctx) -> None:
         else:
             rep.bad("C12.R2", wrap.qname, desc, wi.loc(), [f"cache constructed with `{unparse(ctor[0], 50) if ctor else '?'}`; capacity set by `{unparse(capdef[0], 50) if capdef else '?'}`"],
                     "cap-flow", what="the effective capacity is not the configured number of objects")
+    cache_ownership(ctx, "C12.R2")
     # writers of the capacity and outside access to the mapping
     if cap_attr:
         writers = [(f, st) for (f, v, st) in ctx.heap.attr_stores.get(cap_attr, []) if f_cls(f) is cache]
